@@ -10,7 +10,7 @@ from concurrent.futures import ThreadPoolExecutor
 
 from common import (CORPUS, HARNESS, ToolError, Stage, cargo_build, log, run_tlc, sh, tlc_action_counts)
 
-OK_PAIRS = ["tracked", "box", "string", "big", "align64", "zst", "plain"]
+OK_PAIRS = ["tracked", "box", "string", "big", "align64", "zst", "plain", "drop_to_plain", "plain_to_drop"]
 MM_PAIRS = ["mm_size", "mm_align", "mm_both", "mm_zst_in", "mm_zst_out"]
 
 
@@ -112,7 +112,7 @@ def pipeline(tier, seed):
             scs.append(s)
         ncorpus = len(scs)
         for i, g in enumerate(gen):
-            pairs = OK_PAIRS if tier == "thorough" else [OK_PAIRS[i % len(OK_PAIRS)], OK_PAIRS[(i // 7 + 3) % len(OK_PAIRS)]]
+            pairs = OK_PAIRS if tier == "thorough" else [OK_PAIRS[i % len(OK_PAIRS)], OK_PAIRS[(i // 9 + 4) % len(OK_PAIRS)]]
             for p in dict.fromkeys(pairs):
                 s = dict(g)
                 s["pair"] = p
